@@ -208,6 +208,19 @@ fn deep_module(kind: &str) -> Vec<u8> {
             func.instruction(&we::Instruction::BrTable(vec![0u32; n].into(), 0));
         }
         "locals" => {}
+        "wide" => {
+            // one sequence of 70 000 instructions with a block near its end
+            for _ in 0..35_000 {
+                func.instruction(&we::Instruction::I32Const(1));
+                func.instruction(&we::Instruction::Drop);
+            }
+            func.instruction(&we::Instruction::Block(we::BlockType::Empty));
+            func.instruction(&we::Instruction::I32Const(2));
+            func.instruction(&we::Instruction::Drop);
+            func.instruction(&we::Instruction::End);
+            func.instruction(&we::Instruction::I32Const(3));
+            func.instruction(&we::Instruction::Drop);
+        }
         "unclosed-blocks" => {
             // invalid: never closed
             for _ in 0..n {
@@ -234,6 +247,7 @@ pub const DEEP_KINDS: &[&str] = &[
     "dead-blocks",
     "br_table",
     "locals",
+    "wide",
     "unclosed-blocks",
 ];
 
